@@ -127,7 +127,8 @@ def build_cube(case):
         big = tuple(n + 3 for n in shape)
         inner = dict(case, fam=("tan" if nd >= 2 else "lin"), shape=list(big), cfg=cfg | 8)
         cube0, _ = build_cube(inner)
-        pre = tuple(slice(1, n + 1) if (cfg >> a) & 1 else slice(3, None) for a, n in enumerate(shape))
+        st = 1 if cfg & 16 else None          # a step of 1 written out is no step
+        pre = tuple(slice(1, n + 1, st) if (cfg >> a) & 1 else slice(3, None, st) for a, n in enumerate(shape))
         cube = cube0[pre]
         return cube, np.asarray(cube.data)
     n = int(np.prod(shape))
